@@ -208,6 +208,8 @@ def make_pool(rng):
                                                     for j in range(n)]})
     p.add('wlist', 'wlist', rng.sample([0, 1.0, 2.0, 0.5], rng.randint(1, 3)))
     p.add('warr', 'warr', np.array([0.0, 1.0, 10.0][:rng.randint(1, 3)]))
+    p.add('tinF', 'tin', np.linspace(0.02, 0.07, 6))
+    p.add('tinI', 'tin', np.arange(1, 6))
     p.add('idsA', 'ids', [])
     p.add('idsB', 'ids', [])
     return p
@@ -310,9 +312,9 @@ def build_ops():
     def run_transient(a, l):
         c = a['circuit']
         srcs = {x.id: (lambda t, v=float(x.value.get('V', x.value.get('I', 1.0))): v * np.ones(np.size(t))) for x in c.components if 'w' in x.value}
-        sol = cs.TransientSolution(c, tin=np.linspace(0, 0.05, 6), input=srcs)
+        sol = cs.TransientSolution(c, tin=a['tin'], input=srcs)
         return _solution_report(sol, *ids_nodes(c))
-    op('TransientSolution', [Q['CS'] + 'TransientSolution.__post_init__'], C, run_transient)
+    op('TransientSolution', [Q['CS'] + 'TransientSolution.__post_init__'], {'circuit': 'circuit', 'tin': 'tin'}, run_transient)
     lit_cn = lambda rng, a: dict(n1=rng.choice(ids_nodes(a['circuit'])[1]), n2=rng.choice(ids_nodes(a['circuit'])[1]),
                                  id=rng.choice(ids_nodes(a['circuit'])[0] or ['?']))
     CW = {'circuit': 'circuit', 'w': 'warr'}
@@ -411,6 +413,8 @@ def do_step(ctx, out, pool, ops, effects, defaults, tables, name, keys, lit, his
             predicted |= set(keys.values())
         else:
             predicted |= {keys[p] for p in ws if p in keys}
+            if 'self' in ws and q.endswith('__post_init__'):
+                predicted |= set(keys.values())          # a constructor that writes through `self` may write any of its arguments
     if any(k not in predicted for k in changed) and predicted:
         reach = set().union(*[mutable_ids(pool.obj[p]) for p in predicted])
         predicted |= {k for k in changed if mutable_ids(pool.obj[k]) & reach}      # aliases of a written argument
@@ -463,7 +467,7 @@ def run_history(ctx, out, ops, effects, defaults, tables, rng, n_ops, hist_no):
     names = list(ops)
     weights = [3 if n in ('load_network', 'to_complex', 'undictify_all_complex_values', 'passive_network', 'remove_short_circuit_elements',
                           'state_space_matrices', 'transform', 'circuit_state_space_model', 'solve') else
-               0.3 if n == 'TransientSolution' else 1 for n in names]
+               0.6 if n == 'TransientSolution' else 1 for n in names]
     last = None
     trace = []
     for step in range(n_ops):
@@ -658,6 +662,30 @@ def repeat_check(ctx, out, label, make, queries, args, rng, case):
         if snap(v) != args_before[k]:
             out.spec_fail(dict(op=label, symptom='argument_mutated', param=k, kind=type(v).__name__), f'{label} changed its argument {k!r}', case)
             return
+    # FAILING queries (unknown ids; the exception is caught by the caller) interleaved with valid ones on one more object:
+    # a failed query leaves what the object stores untouched, and every valid answer is the same before and after it
+    failing = [i for i in fwd if a1[i][1][0] == 'err']
+    valid = [i for i in fwd if i not in failing]
+    if failing and valid:
+        k0, o3 = outcome(make)
+        if k0 == 'ok':
+            v0 = ask(o3, valid)
+            for f in failing:
+                st = state_snap(o3)
+                ask(o3, [f])
+                st_after = state_snap(o3)
+                if st_after != st:
+                    changed = [k for (k, x), (_, y) in zip(st, st_after) if x != y] if len(st) == len(st_after) else ['<fields>']
+                    return fail('state_changed_by_failed_query', f, f'the failed query {queries[f][0]} changed what the object stores: {changed}', '', '')
+                v1 = ask(o3, valid)
+                bad = next((i for i in valid if v0[i] != v1[i]), None)
+                if bad is not None:
+                    out.spec_fail(dict(op=label, symptom='valid_answer_changed_after_failed_query', getter=queries[bad][0].split('(')[0],
+                                       failed=queries[f][0].split('(')[0]),
+                                  f'{label}: after the failed query {queries[f][0]} the valid query {queries[bad][0]} answers differently', case,
+                                  impl=dict(before=str(v0[bad])[:300], after=str(v1[bad])[:300]))
+                    return
+            out.count('failed_query_interleaved:' + label, len(failing))
     out.nontrivial(('object', label, len(queries)))
 
 def object_cases(ctx, out, rng, n_circuits):
@@ -672,23 +700,27 @@ def object_cases(ctx, out, rng, n_circuits):
         case = dict(circuit=[f'{x.type}:{x.id}{tuple(x.nodes)}{x.value}' for x in c.components], seed=ctx.seed, case=ci)
         def sol_queries():
             q = [(f'get_potential({n!r})', lambda o, n=n: o.get_potential(n)) for n in nodes_q]
-            for i in ids_q:
+            for j, i in enumerate(ids_q):
                 q += [(f'get_voltage({i!r})', lambda o, i=i: o.get_voltage(i)), (f'get_current({i!r})', lambda o, i=i: o.get_current(i)),
                       (f'get_power({i!r})', lambda o, i=i: o.get_power(i))]
+                if j == 0:       # unknown identifiers, in the middle of the valid queries
+                    q += [("get_power('__unknown__')", lambda o: o.get_power('__unknown__')), ("get_voltage('__unknown__')", lambda o: o.get_voltage('__unknown__')),
+                          ("get_current('__unknown__')", lambda o: o.get_current('__unknown__')), ("get_potential('__unknown__')", lambda o: o.get_potential('__unknown__'))]
             return q
         w = rng.choice([0.0, 1.0, 2.0, 10.0]); w_max = rng.choice([0, 5.0, 25.0])
         args = dict(circuit=c)
         repeat_check(ctx, out, 'DCSolution', lambda: cs.DCSolution(c), sol_queries(), args, rng, case)
         repeat_check(ctx, out, 'ComplexSolution', lambda: cs.ComplexSolution(c, w=w, peak_values=bool(ci % 2)), sol_queries(), args, rng, dict(case, w=w))
-        repeat_check(ctx, out, 'TimeDomainSolution', lambda: cs.TimeDomainSolution(c, w_max=w_max), sol_queries()[:7], args, rng, dict(case, w_max=w_max))
+        repeat_check(ctx, out, 'TimeDomainSolution', lambda: cs.TimeDomainSolution(c, w_max=w_max), sol_queries()[:10], args, rng, dict(case, w_max=w_max))
         for one_sided in (True, False):
             repeat_check(ctx, out, 'FrequencyDomainSolution' + ('' if one_sided else '_two_sided'),
                          lambda: cs.FrequencyDomainSolution(c, w_max=w_max, one_sided=one_sided), sol_queries(), args, rng, dict(case, w_max=w_max))
-        if ci % 3 == 0:
-            tin = np.linspace(0, 0.05, 6)
-            srcs = {x.id: (lambda t, v=float(x.value.get('V', x.value.get('I', 1.0))): v * np.ones(np.size(t))) for x in c.components if 'w' in x.value}
-            repeat_check(ctx, out, 'TransientSolution', lambda: cs.TransientSolution(c, tin=tin, input=srcs), sol_queries()[:7],
-                         dict(circuit=c, tin=tin), rng, case)
+        # the caller's time vector in every form a caller may hold it: float ndarray starting at t0 ≠ 0 or at 0, int ndarray, list;
+        # the SAME tin object and input dictionary serve the first and the "fresh" solution, and are snapshotted before / after
+        tin = [np.linspace(0.01, 0.06, 6), np.linspace(0, 0.05, 6), np.arange(1, 7), [0.5, 0.51, 0.52, 0.53], np.linspace(2.0, 2.05, 6)][ci % 5]
+        srcs = {x.id: (lambda t, v=float(x.value.get('V', x.value.get('I', 1.0))): v * np.ones(np.size(t))) for x in c.components if 'w' in x.value}
+        repeat_check(ctx, out, 'TransientSolution', lambda: cs.TransientSolution(c, tin=tin, input=srcs), sol_queries()[:10] + [('t', lambda o: o.t)],
+                     dict(circuit=c, tin=tin, input=srcs), rng, dict(case, tin=type(tin).__name__ + ':' + str([float(x) for x in np.asarray(tin)[:2]])))
         # the nodal state-space model and the network solution of the circuit's DC network
         knet, net = outcome(lambda: cc.transform_circuit(c, 0))
         if knet == 'ok':
@@ -701,10 +733,14 @@ def object_cases(ctx, out, rng, n_circuits):
             for i in bids:
                 rows += [(f'c_row_voltage({i!r})', lambda o, i=i: o.c_row_voltage(i)), (f'c_row_current({i!r})', lambda o, i=i: o.c_row_current(i)),
                          (f'd_row_voltage({i!r})', lambda o, i=i: o.d_row_voltage(i)), (f'd_row_current({i!r})', lambda o, i=i: o.d_row_current(i))]
+            rows.insert(3, ("c_row_current('__unknown__')", lambda o: o.c_row_current('__unknown__')))
+            rows.insert(5, ("d_row_voltage('__unknown__')", lambda o: o.d_row_voltage('__unknown__')))
+            rows.insert(7, ("c_row_for_potential('__unknown__')", lambda o: o.c_row_for_potential('__unknown__')))
             rows.append(('sources', lambda o: o.sources))
             repeat_check(ctx, out, 'NodalStateSpaceModel', lambda: ssm.nodal_state_space_model(net, c_values=cvals, l_values=lvals), rows,
                          dict(network=net, c_values=cvals, l_values=lvals), rng, case)
             nq = [(f'get_potential({n!r})', lambda o, n=n: o.get_potential(n)) for n in labels]
+            nq += [("get_power('__unknown__')", lambda o: o.get_power('__unknown__')), ("get_potential('__unknown__')", lambda o: o.get_potential('__unknown__'))]
             for i in bids:
                 nq += [(f'get_voltage({i!r})', lambda o, i=i: o.get_voltage(i)), (f'get_current({i!r})', lambda o, i=i: o.get_current(i)),
                        (f'get_power({i!r})', lambda o, i=i: o.get_power(i))]
@@ -764,6 +800,8 @@ def diagram_cases(ctx, out, rng):
         q = []
         for a in DIAGRAM_ANNOTATIONS['voltages']: q.append((f'draw_voltage({a})', lambda o, a=a: lab(o.draw_voltage(**a))))
         for a in DIAGRAM_ANNOTATIONS['currents']: q.append((f'draw_current({a})', lambda o, a=a: lab(o.draw_current(**a))))
+        q.insert(1, ("draw_voltage('__unknown__')", lambda o: lab(o.draw_voltage(name='__unknown__'))))
+        q.append(("draw_current('__unknown__')", lambda o: lab(o.draw_current(name='__unknown__', reverse=True))))
         for a in DIAGRAM_ANNOTATIONS['powers']: q.append((f'draw_power({a})', lambda o, a=a: lab(o.draw_power(**a))))
         for a in DIAGRAM_ANNOTATIONS['potentials']: q.append((f'draw_potential({a})', lambda o, a=a: lab(o.draw_potential(**a))))
         ann = copy.deepcopy(DIAGRAM_ANNOTATIONS)
